@@ -195,7 +195,8 @@ class Model:
             lp_vars_string = 'Main lp decision variables:\n'
             for pair_row in self.pairs:
                 for pair in pair_row:
-                    if (pair.lp_var.varValue > 0.9):
+                    if (hasattr(pair, 'lp_var') and 
+                        pair.lp_var.varValue > 0.9):
                         lp_vars_string += '1 '
                     else:
                         lp_vars_string += '0 '
